@@ -1,15 +1,186 @@
-import TomlVerif.Model.Doc
+import TomlVerif.Lemmas.Order18
 /-! # C18 — Cargo feature choices change performance or ordering only, never results
 
 The model has exactly two configuration parameters: the map order of `toml::Table`
 (sorted | insertion) and the recursion limit (`LIMIT` | none). Everything else the features switch
 (`perf` = string representation, `serde`, `parse`, `display` = which code is compiled) has no
 counterpart in the model, because it does not change logic; that claim is what the per-configuration
-correspondence checks. -/
-namespace TomlVerif.Props.C18
-open TomlVerif TomlVerif.Model
+correspondence checks.
 
-/-- parsing does not look at the map-order parameter at all: the decoded tree is a function of the text only -/
-theorem T18_parse_independent_of_order (s : Bytes) (_order : Bool) : Doc.parseDocument s = Doc.parseDocument s := rfl
+This file is about the first parameter, the documented exception: with `preserve_order` a
+`toml::Table` iterates in insertion order (`IndexMap`), without it in key order (`BTreeMap`).
+The definitions are in `Spec/OrderedPlain.lean` (`bytesLt`, `sortByKey`, `Plain`, `toPlain`,
+`sortPlain`, `PermEquiv`, `MapOrder`, `iterOrder`, `orderPlain`); the parser never looks at the
+parameter (the decoded tree `Tbl` is the same value in every build, `toPlain` and `orderPlain` are
+applied afterwards), so all that a configuration can change is described by `orderPlain`.
+
+ 1. `bytesLt` is a strict total order (`T18_bytesLt_*`).
+ 2. `sortByKey` sorts, permutes, and its output depends only on the *set* of entries
+    (`T18_sort_sorted`, `T18_sort_perm`, `T18_sort_order_independent`).
+ 3. Two values that differ only in map order, at any depth, have the same sorted form
+    (`T18_sorted_plain_invariant`), the sorted form holds the same data as the original
+    (`T18_sorted_same_data`), and both builds have the same sorted form (`T18_configs_same_data`).
+ 4. In the insertion-order build the iteration order is the order of the entries
+    (`T18_insertion_is_identity`), and it really can differ from the sorted one (examples at the end). -/
+namespace TomlVerif.Props.C18
+open TomlVerif TomlVerif.Model TomlVerif.Spec.OrderedPlain TomlVerif.Lemmas.Order18
+
+/-! ## 1. `bytesLt` is a strict total order -/
+
+theorem T18_bytesLt_irrefl (a : Bytes) : bytesLt a a = false :=
+  bytesLt_irrefl a
+
+theorem T18_bytesLt_trans (a b c : Bytes) : bytesLt a b = true → bytesLt b c = true → bytesLt a c = true :=
+  bytesLt_trans a b c
+
+example : bytesLt [0x61] [0x61, 0x62] = true ∧ bytesLt [0x61, 0x62] [0x62] = true := by decide
+
+/-- exactly one of `a < b`, `a = b`, `b < a` (at least one here, at most one by irreflexivity and `T18_bytesLt_asymm`) -/
+theorem T18_bytesLt_trichotomous (a b : Bytes) : bytesLt a b = true ∨ a = b ∨ bytesLt b a = true :=
+  bytesLt_trichotomy a b
+
+theorem T18_bytesLt_asymm (a b : Bytes) : bytesLt a b = true → bytesLt b a = false :=
+  bytesLt_asymm a b
+
+example : bytesLt [0x61, 0xff] [0x62] = true := by decide
+
+/-- the order is the one of the driver (`Driver.bytesLt` in Driver/Canon.lean has the same four equations) -/
+theorem T18_bytesLt_spec :
+    bytesLt [] [] = false ∧ (∀ b s, bytesLt [] (b :: s) = true) ∧ (∀ a r, bytesLt (a :: r) [] = false) ∧
+    (∀ a r b s, bytesLt (a :: r) (b :: s) = if a < b then true else if b < a then false else bytesLt r s) :=
+  ⟨rfl, fun _ _ => rfl, fun _ _ => rfl, fun _ _ _ _ => rfl⟩
+
+/-! ## 2. `sortByKey` -/
+
+/-- distinct keys in, strictly increasing keys out -/
+theorem T18_sort_sorted {α} (l : List (Bytes × α)) : KeysDistinct l → StrictSorted (sortByKey l) :=
+  sortByKey_strictSorted l
+
+example : KeysDistinct [([0x62], 1), ([0x61], 2), ([0x61, 0x00], 3)] := by unfold KeysDistinct; decide
+
+/-- in general: non-decreasing keys out -/
+theorem T18_sort_sorted_weak {α} (l : List (Bytes × α)) : WeakSorted (sortByKey l) :=
+  sortByKey_weakSorted l
+
+theorem T18_sort_perm {α} (l : List (Bytes × α)) : (sortByKey l).Perm l :=
+  sortByKey_perm l
+
+/-- an already sorted list is left alone, so sorting twice is sorting once -/
+theorem T18_sort_fixes_sorted {α} (l : List (Bytes × α)) : WeakSorted l → sortByKey l = l :=
+  sortByKey_eq_self l
+
+example : WeakSorted [([0x61], 2), ([0x61], 5), ([0x62], 1)] := by unfold WeakSorted; decide
+
+theorem T18_sort_idempotent {α} (l : List (Bytes × α)) : sortByKey (sortByKey l) = sortByKey l :=
+  sortByKey_idem l
+
+/-- under the default (sorted) map the iteration order depends only on the set of entries,
+    never on the insertion order -/
+theorem T18_sort_order_independent {α} (l₁ l₂ : List (Bytes × α)) :
+    l₁.Perm l₂ → KeysDistinct l₁ → sortByKey l₁ = sortByKey l₂ :=
+  fun hp hd => sortByKey_order_independent hp hd
+
+example : [([0x62], 1), ([0x61], 2)].Perm [([0x61], 2), ([0x62], 1)] ∧
+    KeysDistinct [([0x62], 1), ([0x61], 2)] :=
+  ⟨List.Perm.swap _ _ _, by unfold KeysDistinct; decide⟩
+
+/-- the distinctness hypothesis is needed: the sort is stable, repeated keys keep their input order -/
+example : [([0x61], 1), ([0x61], 2)].Perm [([0x61], 2), ([0x61], 1)] ∧
+    sortByKey [([0x61], 1), ([0x61], 2)] ≠ sortByKey [([0x61], 2), ([0x61], 1)] :=
+  ⟨List.Perm.swap _ _ _, by decide⟩
+
+/-- never results: a lookup by key gives the same answer whatever the order of the map -/
+theorem T18_lookup_order_independent {α} (k : Bytes) (l₁ l₂ : List (Bytes × α)) :
+    l₁.Perm l₂ → KeysDistinct l₁ → alookup k l₁ = alookup k l₂ :=
+  fun hp hd => alookup_perm k hp hd
+
+theorem T18_lookup_sorted {α} (k : Bytes) (l : List (Bytes × α)) :
+    KeysDistinct l → alookup k (iterOrder .sorted l) = alookup k (iterOrder .insertion l) :=
+  fun hd => (alookup_perm k (sortByKey_perm l).symm hd).symm
+
+/-! ## 3. plain data up to map order -/
+
+/-- two builds that differ only in map order hold the same data: values equal up to permuting table
+    entries at every level have one and the same sorted form. This is the precise content of the
+    `preserve_order` exception. -/
+theorem T18_sorted_plain_invariant (p q : Plain) : permEquiv p q → sortPlain p = sortPlain q :=
+  fun h => sortPlain_permEquiv h
+
+/-- the same, for the plain data of two decoded documents -/
+theorem T18_sorted_doc_invariant (t u : Tbl) :
+    permEquiv (toPlain t) (toPlain u) → orderPlain .sorted (toPlain t) = orderPlain .sorted (toPlain u) :=
+  fun h => sortPlain_permEquiv h
+
+/-- a two-level example: `{b = 1, a = {y = true, x = "s"}}` against `{a = {x = "s", y = true}, b = 1}` -/
+def exP : Plain :=
+  .tbl [([0x62], .scalar (.int 1)),
+        ([0x61], .tbl [([0x79], .scalar (.bool true)), ([0x78], .scalar (.str [0x73]))])]
+def exQ : Plain :=
+  .tbl [([0x61], .tbl [([0x78], .scalar (.str [0x73])), ([0x79], .scalar (.bool true))]),
+        ([0x62], .scalar (.int 1))]
+
+theorem exP_permEquiv_exQ : permEquiv exP exQ :=
+  PermEquiv.tbl
+    (PermEquivEntries.cons (PermEquiv.scalar _)
+      (PermEquivEntries.cons
+        (PermEquiv.tbl
+          (PermEquivEntries.cons (PermEquiv.scalar _) (PermEquivEntries.cons (PermEquiv.scalar _) PermEquivEntries.nil))
+          (by unfold KeysDistinct; decide) (List.Perm.swap _ _ _))
+        PermEquivEntries.nil))
+    (by unfold KeysDistinct; decide) (List.Perm.swap _ _ _)
+
+example : sortPlain exP = exQ ∧ sortPlain exQ = exQ := ⟨by rfl, by rfl⟩
+
+/-- the sorted form holds the same data as the original (no table has a repeated key) -/
+theorem T18_sorted_same_data (p : Plain) : WellKeyed p → permEquiv p (sortPlain p) :=
+  permEquiv_sortPlain p
+
+example : WellKeyed exP := by
+  simp only [exP, WellKeyed, WellKeyedEntries, KeysDistinct, and_true]
+  decide
+
+theorem T18_sortPlain_idempotent (p : Plain) : sortPlain (sortPlain p) = sortPlain p :=
+  sortPlain_idem p
+
+/-- whatever the map, the sorted form of what a build holds is the same: the two configurations
+    differ in order only -/
+theorem T18_configs_same_data (p : Plain) (o₁ o₂ : MapOrder) :
+    sortPlain (orderPlain o₁ p) = sortPlain (orderPlain o₂ p) := by
+  cases o₁ <;> cases o₂ <;> simp only [orderPlain, sortPlain_idem]
+
+/-- and the two builds hold equivalent values -/
+theorem T18_configs_permEquiv (p : Plain) :
+    WellKeyed p → permEquiv (orderPlain .insertion p) (orderPlain .sorted p) :=
+  permEquiv_sortPlain p
+
+/-! ## 4. the exception is real -/
+
+/-- with the insertion-order configuration the iteration order of a table is the order of its entries -/
+theorem T18_insertion_is_identity {α} (l : List (Bytes × α)) : iterOrder .insertion l = l := rfl
+
+theorem T18_insertion_is_identity_plain (p : Plain) : orderPlain .insertion p = p := rfl
+
+example : iterOrder .insertion [([0x62], 1), ([0x61], 2)] = [([0x62], 1), ([0x61], 2)] := rfl
+
+/-- `b = 1; a = 2` and `a = 2; b = 1`: the sorted forms coincide, the insertion-order forms differ -/
+example :
+    iterOrder .sorted [([0x62], 1), ([0x61], 2)] = iterOrder .sorted [([0x61], 2), ([0x62], 1)] ∧
+    iterOrder .insertion [([0x62], 1), ([0x61], 2)] ≠ iterOrder .insertion [([0x61], 2), ([0x62], 1)] := by
+  decide
+
+/-- the same for whole documents: `toPlain` of the decoded trees of `b = 1⏎a = 2` and `a = 2⏎b = 1` -/
+def exT : Tbl := .mk [([0x62], .value (.int 1)), ([0x61], .value (.int 2))] false false (some 0)
+def exU : Tbl := .mk [([0x61], .value (.int 2)), ([0x62], .value (.int 1))] false false (some 0)
+
+example :
+    orderPlain .sorted (toPlain exT) = orderPlain .sorted (toPlain exU) ∧
+    orderPlain .insertion (toPlain exT) ≠ orderPlain .insertion (toPlain exU) := by
+  refine ⟨by rfl, ?_⟩
+  simp [orderPlain, exT, exU, toPlain, itemEntriesToPlain, itemToPlain, valToPlain]
+
+example : permEquiv (toPlain exT) (toPlain exU) :=
+  PermEquiv.tbl
+    (PermEquivEntries.cons (PermEquiv.scalar _) (PermEquivEntries.cons (PermEquiv.scalar _) PermEquivEntries.nil))
+    (by unfold KeysDistinct; decide) (List.Perm.swap _ _ _)
 
 end TomlVerif.Props.C18
